@@ -28,6 +28,14 @@ def soundness_of_detection(run, f, name):
     is sound and the graph keeps no residue: that is property C15, whose structural rules are
     therefore evaluated here as well (O15.5 is reported through the O18.3 key above)."""
     import deadlock
+    # the deliberate deadlock panic (in ask or in its extracted helper) is the one non-neutral
+    # addition; it is allowed iff it is unreachable for cycle-free programs, i.e. iff C15-O15.5 holds
+    shim5 = Run("C15", run.tier, run.seed)
+    shim5.cur_config = name
+    c15.edge_outlives_request(shim5, f)
+    run.require(all(o["ok"] for o in shim5.obligations), "O18.3", "feature-adds-panic-reachable-without-cycle:deadlock-detection",
+                "deadlock-detection adds a panic to ask that is reachable for programs without an ask cycle (C15-O15.5 fails: stale wait-for edge), so the feature is not behaviour-neutral",
+                "the added deadlock panic is unreachable without an ask cycle (C15-O15.5 holds)")
     shim = Run("C15", run.tier, run.seed)
     shim.cur_config = name
     det = deadlock.get(f)
@@ -56,6 +64,11 @@ def audit_erased(run, f, allow, name, feature_only=()):
     themselves contain nothing behaviour-relevant: no channel operation, spawn, sleep, lock
     other than the wait-for map's, no panic - only counters, clock reads, map bookkeeping."""
     strict = skeleton.Allow(f, strict_local=True)
+    detection_def = None
+    if "deadlock-detection" in f.features:
+        import deadlock
+        dd = deadlock.get(f)
+        detection_def = dd.body.defn if dd.body is not None and dd.is_helper else None
     # erased callees plus every function that exists only with the feature (incl. Drop impls,
     # which run implicitly and therefore never show up as call events)
     todo = sorted(set(allow.erased_local) | {d for d in feature_only if "::tests::" not in d})
@@ -67,6 +80,8 @@ def audit_erased(run, f, allow, name, feature_only=()):
         seen.add(d)
         nodes, _ = skeleton.skeleton(f, d, strict)
         def relevant(e):
+            if e[0] == "panic" and d == detection_def:
+                return False        # the deliberate deadlock panic: judged by O18.3 / C15, not here
             if e[0] in ("panic", "build"):
                 return True
             if e[0] != "call":
@@ -119,18 +134,9 @@ def run(run):
             allowed_panic = set()
             if "deadlock-detection" in f1.features and r == "actor_ref::ActorRef::<T>::ask":
                 allowed_panic = {e for e in added if e[0] == "panic"}
-                if allowed_panic:
-                    if len(allowed_panic) > 1:
-                        run.fail("O18.3", "feature-adds-panics:%s" % short, "deadlock-detection adds %d panic sites to ask" % len(allowed_panic))
-                    # allowed iff C15-O15.5 holds
-                    shim = Run("C15", run.tier, run.seed)
-                    shim.cur_config = name
-                    c15.edge_outlives_request(shim, f1)
-                    ok15 = all(o["ok"] for o in shim.obligations)
-                    run.require(ok15, "O18.3", "feature-adds-panic-reachable-without-cycle:deadlock-detection",
-                                "deadlock-detection adds a panic to ask that is reachable for programs without an ask cycle (C15-O15.5 fails: stale wait-for edge), so the feature is not behaviour-neutral",
-                                "the added deadlock panic is unreachable without an ask cycle (C15-O15.5 holds)", loc=list(allowed_panic)[0][2])
-                    added = added - allowed_panic
+                if len(allowed_panic) > 1:
+                    run.fail("O18.3", "feature-adds-panics:%s" % short, "deadlock-detection adds %d panic sites to ask" % len(allowed_panic))
+                added = added - allowed_panic
             for e in sorted(added):
                 ndiff += 1
                 run.fail("O18.2", "added-event:%s:%s" % (short, keyless(e)), "with [%s], %s additionally performs %s %s" % (name, short, e[0], e[1]), loc=e[2])
